@@ -17,6 +17,7 @@ import (
 	"strconv"
 	"strings"
 	"time"
+	"unsafe"
 
 	golog "github.com/fclairamb/go-log"
 	"github.com/pojntfx/stfs/pkg/cache"
@@ -289,6 +290,22 @@ func (e *Env) RootLine() string {
 		b = "1"
 	}
 	return "root\t" + EncName(root) + "\t" + b
+}
+
+// RootCache reads the persister's two cached fields; SetRootCache writes them back.  The
+// harness uses the pair to make its own observation walks (Stat/Readdir/Open through the
+// public API, which fill that cache as a side effect) invisible to the history under test.
+func (e *Env) RootCache() (string, bool) {
+	v := reflect.ValueOf(e.MP).Elem()
+	return v.FieldByName("root").String(), v.FieldByName("rootIsEmptyString").Bool()
+}
+
+func (e *Env) SetRootCache(root string, isEmpty bool) {
+	v := reflect.ValueOf(e.MP).Elem()
+	f1 := v.FieldByName("root")
+	reflect.NewAt(f1.Type(), unsafe.Pointer(f1.UnsafeAddr())).Elem().SetString(root)
+	f2 := v.FieldByName("rootIsEmptyString")
+	reflect.NewAt(f2.Type(), unsafe.Pointer(f2.UnsafeAddr())).Elem().SetBool(isEmpty)
 }
 
 // ---- observation of the tape ----
